@@ -594,7 +594,14 @@ def check_message(ctx, rule="WIRE-M"):
         if tag == "payload" and f["args"] and isinstance(f["args"][0], int):
             order = eng_.T.t(f["args"][0]).get("path", "?").split("::")[-1]
         src = args[0]
-        srcname = "%s:%s" % (src.loc, src.path) if isinstance(src, Ref) else "?"
+        srcname = "?"
+        if isinstance(src, Ref):
+            # which field of the message is being serialised
+            fields = [x["name"] for x in F.adts["dlt::Message"]["variants"][0]["fields"]]
+            if src.loc == "obj:self" and src.path and src.path[0][0] == "f" and src.path[0][1] < len(fields):
+                srcname = "self." + fields[src.path[0][1]]
+            else:
+                srcname = "%s:%s" % (src.loc, src.path)
         ln = eng_.fresh_int("sublen", 64, False, 0, eng_.len_max)
         return [(st, new_cont(eng_, "vec", ln.lin, None, (("sub", tag, order, srcname),), ret_ty(eng_, site), hint=tag))]
 
@@ -612,12 +619,12 @@ def check_message(ctx, rule="WIRE-M"):
         seen.add((sh, eh, en))
         want = []
         if sh == "Some":
-            want.append(("SUB", "'storage'", "''"))
-        want.append(("SUB", "'standard'", "''"))
+            want.append(("SUB", "'storage'", "''", "'self.storage_header'"))
+        want.append(("SUB", "'standard'", "''", "'self.header'"))
         if eh == "Some":
-            want.append(("SUB", "'extended'", "''"))
-        want.append(("SUB", "'payload'", "'%s'" % ("BigEndian" if en == "Big" else "LittleEndian")))
-        g2 = [t[:3] for t in got]
+            want.append(("SUB", "'extended'", "''", "'self.extended_header'"))
+        want.append(("SUB", "'payload'", "'%s'" % ("BigEndian" if en == "Big" else "LittleEndian"), "'self.payload'"))
+        g2 = [t[:4] for t in got]
         compare(ctx, rule, MSG_AS_BYTES, "storage=%s ext=%s endianness=%s" % (sh, eh, en), g2, want, "message")
     if len(seen) != 8:
         R.violation(rule, MSG_AS_BYTES + "|partitions", "expected 8 message shapes (storage x extended x endianness), saw %d" % len(seen), function=MSG_AS_BYTES, kind="UNRECOGNISED-SHAPE")
